@@ -8,6 +8,7 @@ import (
 	"go/ast"
 	"go/parser"
 	"go/printer"
+	"go/scanner"
 	"go/token"
 	"strings"
 )
@@ -86,14 +87,52 @@ func normalise(fset *token.FileSet, fi *fileInfo, cls *class, fn *ast.FuncDecl) 
 		fmt.Fprintf(errOut, "genlocks: printing normal form of %s: %v\n", fn.Name.Name, err)
 		exit(2)
 	}
-	var lines []string
-	for _, l := range strings.Split(buf.String(), "\n") {
-		l = strings.TrimSpace(l)
-		if l != "" {
-			lines = append(lines, l)
+	return tokenNormal(buf.String())
+}
+
+// tokenNormal re-scans the printed body and joins the tokens canonically, so that the normal form does not depend on
+// layout (line breaks, blank lines, trailing commas of multi-line literals, automatic semicolons before a brace).
+func tokenNormal(src string) string {
+	fset := token.NewFileSet()
+	file := fset.AddFile("", fset.Base(), len(src))
+	var sc scanner.Scanner
+	sc.Init(file, []byte(src), nil, 0)
+	var toks []string
+	for {
+		_, tok, lit := sc.Scan()
+		if tok == token.EOF {
+			break
+		}
+		t := tok.String()
+		if tok == token.SEMICOLON {
+			t = ";"
+		} else if lit != "" {
+			t = lit
+		}
+		if n := len(toks); n > 0 {
+			closing := tok == token.RBRACE || tok == token.RPAREN || tok == token.RBRACK
+			if (closing && toks[n-1] == ",") || (tok == token.RBRACE && toks[n-1] == ";") {
+				toks = toks[:n-1]
+			}
+		}
+		toks = append(toks, t)
+	}
+	for len(toks) > 0 && toks[len(toks)-1] == ";" {
+		toks = toks[:len(toks)-1]
+	}
+	var sb strings.Builder
+	for i, t := range toks {
+		sb.WriteString(t)
+		if i == len(toks)-1 {
+			break
+		}
+		if t == ";" || t == "{" {
+			sb.WriteByte('\n')
+		} else {
+			sb.WriteByte(' ')
 		}
 	}
-	return strings.Join(lines, "\n")
+	return sb.String()
 }
 
 func (nz *normaliser) isNilCheck(s ast.Stmt) bool {
